@@ -83,11 +83,84 @@ def entry(fn, bits, xh, yh):
     return (0, s, e, m, yl)
 
 
+CFN = {"exp": mp.exp, "expm1": mp.expm1, "log": mp.log, "log2": lambda z: mp.log(z) / mp.log(2), "log10": lambda z: mp.log(z) / mp.log(10), "sqrt": mp.sqrt,
+       "sin": mp.sin, "cos": mp.cos, "sinh": mp.sinh, "cosh": mp.cosh, "tan": mp.tan, "tanh": mp.tanh,
+       "norm": lambda z: mp.mpc(z.real * z.real + z.imag * z.imag, 0), "abs": lambda z: mp.mpc(abs(z), 0),
+       "arg": lambda z: mp.mpc(mp.atan2(z.imag, z.real), 0)}
+
+
+def comp(v, P):
+    """(kind, s, e, m) of one real component: kind 0 value, 1 zero, 2 not finite"""
+    if mp.isnan(v) or mp.isinf(v):
+        return (2, 0, 0, 0)
+    if v == 0:
+        return (1, 0, 0, 0)
+    a = abs(v)
+    e = int(mp.floor(mp.log(a, 2)))
+    if mp.ldexp(mp.mpf(1), e) > a:
+        e -= 1
+    elif mp.ldexp(mp.mpf(1), e + 1) <= a:
+        e += 1
+    return (0, 1 if v < 0 else 0, e, int(mp.floor(mp.ldexp(a, P + 7 - e))))
+
+
+def negzero(h, bits):
+    return len(h) == bits // 4 and h[0] in "89abcdefABCDEF" and int(h[1:] or "0", 16) == 0 and h[0] == "8"
+
+
+def atan2z(im, imh, re, bits):
+    """atan2 honouring the sign of a zero imaginary part (mpmath has no signed zero)"""
+    if im == 0 and negzero(imh, bits):
+        return -mp.pi if re < 0 else mp.mpf(0)
+    return mp.atan2(im, re)
+
+
+def centry(fn, bits, reh, imh, yh):
+    """complex function: table entries of Re, Im and of the modulus of the exact result"""
+    P = 24 if bits == 32 else 53
+    re, im = dec(reh, bits), dec(imh, bits)
+    bad = [(2, 0, 0, 0)] * 3
+    if not (mp.isfinite(re) and mp.isfinite(im)):
+        return bad
+    try:
+        if fn == "pow":
+            y = dec(yh, bits)
+            if not mp.isfinite(y) or (re == 0 and im == 0):
+                return bad
+            # principal branch; the sign of a zero imaginary part selects the side of the cut
+            z = mp.mpc(re, im)
+            lg = mp.mpc(mp.log(abs(z)), atan2z(im, imh, re, bits))
+            v = mp.exp(y * lg)
+        elif fn == "polar":
+            v = mp.mpc(re * mp.cos(im), re * mp.sin(im))          # (r, theta) passed as (re, im)
+        elif fn in ("log", "log2", "log10"):
+            if re == 0 and im == 0:
+                return bad
+            lg = mp.mpc(mp.log(mp.hypot(re, im)), atan2z(im, imh, re, bits))
+            v = lg / (mp.log(2) if fn == "log2" else mp.log(10) if fn == "log10" else 1)
+        elif fn == "sqrt":
+            v = mp.sqrt(mp.mpc(re, im))
+            if im == 0 and re < 0 and negzero(imh, bits):
+                v = mp.conj(v)                                   # -0 imaginary part: the other side of the branch cut
+        elif fn == "arg":
+            v = mp.mpc(atan2z(im, imh, re, bits), 0)
+        else:
+            v = CFN[fn](mp.mpc(re, im))
+    except (ValueError, ZeroDivisionError, OverflowError):
+        return bad
+    v = mp.mpc(v)
+    return [comp(v.real, P), comp(v.imag, P), comp(abs(v), P)]
+
+
 def main():
     out = []
     for line in sys.stdin:
         f = line.split()
         if not f:
+            continue
+        if f[0].startswith("c:"):
+            ents = centry(f[0][2:], int(f[1]), f[2], f[3], f[4] if len(f) > 4 else None)
+            out.append(" ".join("%d %d %d %d" % e for e in ents))
             continue
         k, s, e, m, yl = entry(f[0], int(f[1]), f[2], f[3] if len(f) > 3 else None)
         out.append("%d %d %d %d %d" % (k, s, e, m, yl))
